@@ -119,6 +119,9 @@ def run(ctx, monitors):
         if not q:
             mc.append(("MC_SyncServe_stall.cfg", True))
         mc += [("MC_SyncServe_%s.cfg" % m, False) for m in ("PutNeverWaits", "OthersServed", "remap")]
+        # same-address replacement while the predecessor's consumer is stalled: the design keeps the
+        # replacement served (Mon_ReplacementServed)
+        mc.append(("MC_SyncServe_replstall_quick.cfg" if q else "MC_SyncServe_replstall.cfg", True))
     # ------------------------------------------------------------------ 2. behaviours from TLC
     gen = []     # callables returning script lists
     if c11:
@@ -136,6 +139,7 @@ def run(ctx, monitors):
         gen.append(lambda: _simulate(ctx, "Sim_SyncServe_same.cfg", "same-bolt", 150 if q else 600, 200))
     if c12:
         gen.append(lambda: _simulate(ctx, "Sim_SyncServe_q100.cfg", "q100-bolt", 2 if q else 6, 3000))
+        gen.append(lambda: _simulate(ctx, "Sim_SyncServe_replstall.cfg", "replstall-bolt", 16 if q else 200, 300))
 
     prior_exhaustive = ctx.exhaustive
     complete = []
@@ -168,7 +172,7 @@ def run(ctx, monitors):
     k = max(1, min(SHARDS, len(scripts) // 50 + 1))
     for i in range(k):
         jobs.append((i + 1, scripts[i::k], None))
-    builtin = ",".join((["soak"] if c11 else []) + (["stall", "scanstall"] if c12 else []))
+    builtin = ",".join((["soak"] if c11 else []) + (["stall", "scanstall", "replstall"] if c12 else []))
     if q:
         jobs.append((0, None, builtin))
     else:
